@@ -312,11 +312,12 @@ def op_tok(op):
     return "r" + ids if op[0] == "r" else "s+r" + ids + "+s"
 
 
-def gen_op(rng, cur):
-    """next operation, chosen looking at the current stage (plate ids are renumbered per stage)"""
+def gen_op(rng, cur, lean=False):
+    """next operation, chosen looking at the current stage (plate ids are renumbered per stage);
+    `lean` (thorough tier) halves the share of the file-based steps, which cost 15-50 ms each"""
     pids = [int(x) for x in np.unique(cur.plate_ids)]
     all_obs = bool(np.all(cur.observation_mask))
-    w = {"m": 30 if all_obs else 12, "u": 10, "r": 42, "s": 16, "cli": 10}
+    w = {"m": 30 if all_obs else 12, "u": 10, "r": 42, "s": 10 if lean else 16, "cli": 5 if lean else 10}
     kinds = list(w)
     k = rng.choices(kinds, [w[x] for x in kinds])[0]
     if k in ("m", "u", "s"):
@@ -336,7 +337,7 @@ def gen_op(rng, cur):
     return [k, ids]
 
 
-def run_side(prep, case, tmp, res, gen=None, n_ops=0, check=True):
+def run_side(prep, case, tmp, res, gen=None, n_ops=0, check=True, lean=False):
     """history on one half.  With `gen` the operations are generated (and recorded in case['ops']), otherwise the recorded
     ones are re-executed.  Returns (model line, impl entries, info)."""
     side = case["side"]
@@ -379,7 +380,7 @@ def run_side(prep, case, tmp, res, gen=None, n_ops=0, check=True):
         else:
             if t >= n_ops:
                 break
-            op = gen_op(gen, cur)
+            op = gen_op(gen, cur, lean)
         done.append(op)
         t += 1
         try:
@@ -536,6 +537,7 @@ def run(ctx, res):
     n_cases = ctx.scale(150, 3000, 1500)
     n_max = 14 if ctx.tier == "quick" and ctx.mode != "search" else 40
     max_ops = 8 if ctx.tier == "quick" and ctx.mode != "search" else 20
+    lean = max_ops > 8
     tmp = tempfile.mkdtemp(prefix="verif_c03_")
     queue = []                                      # (line, entries, case)
     try:
@@ -585,8 +587,8 @@ def run(ctx, res):
                 res.count("hold-out-only.any")
             for side in ("train", "test"):
                 case = dict(base, side=side, ops=[])
-                k = rng.randint(1, max_ops)
-                line, entries, info = run_side(prep, case, tmp, res, gen=rng, n_ops=k)
+                k = rng.randint(1, max_ops if side == "train" or not lean else max_ops // 2)
+                line, entries, info = run_side(prep, case, tmp, res, gen=rng, n_ops=k, lean=lean)
                 res.evaluations += 1
                 res.count("stages", info["steps"] + 1)
                 account(res, case, info)
